@@ -24,6 +24,7 @@ import (
 
 // Job is one unit of engine work: load some packages, run some harnesses.
 type Job struct {
+	First    bool              `json:"first,omitempty"` // scheduled before the others (so that an overall time budget does not starve it)
 	Name     string            `json:"name"`
 	Dir      string            `json:"dir"`      // module directory to load from
 	Patterns []string          `json:"patterns"` // package patterns
